@@ -10,9 +10,9 @@ PY = '/venv/bin/python'
 CHECKS = {
     'C02': ('E-enum', 'exploration',
             'deviation-bounded exhaustive enumeration of scope states x query grammar; every returned candidate is claimed on the real service',
-            'Same scope states and query grammar as C03 at microversions 1.10, 1.12, 1.17, 1.27, 1.29, 1.34, 1.36, 1.39; every returned allocation '
+            'Same scope states and query grammar as C03 at microversions 1.10, 1.12, 1.17, 1.25, 1.26, 1.27, 1.29, 1.34, 1.36, 1.39; every returned allocation '
             'request is checked for shape (an assignment of each group to its mapped providers must reproduce the returned amounts exactly; per-'
-            'class totals equal the request), its provider summaries are compared with the raw rows (capacity, used, traits, classes, parent/'
+            'class totals equal the request), its provider summaries are compared with the raw rows (capacity incl. a fractional one that rounds up, used, traits, classes - only the requested ones below 1.27 -, parent/'
             'root per version), and it is sent unchanged as PUT /allocations/{new consumer} on a fresh restore of the same state, which must '
             'answer 204. The grammar always contains groups overlapping on a resource class (shared-object hazard of consolidation).',
             'scope and joint deviation bound as in C03; capacity in summaries is int((total - reserved) * ratio) as documented',
@@ -23,7 +23,7 @@ CHECKS = {
             'every triple) and the all-six-active combinations of the filters name, uuid, in_tree, member_of (repeated, in:, !, !in:), required '
             '(repeated, in:, !) and resources (amounts hitting each of capacity, min_unit, max_unit, step_size in isolation) at 1.39 and at the '
             'microversions where each filter appeared or changed; the returned uuid set must equal the set computed from the raw rows, unknown '
-            'in_tree/uuid/aggregates give an empty list and unknown traits/classes 400.',
+            'in_tree/uuid/aggregates give an empty list and unknown traits/classes 400. Second part (E-conc): every interleaving of one listing with one or two writers that change what the filters see; the body must be one the listing gives in a serial order of the same requests.',
             'decorated states only get the queries their delta can influence (recorded in the evidence); double-precision capacity arithmetic',
             'DESIGN.md 5.C13'),
     'C20': ('E-enum', 'exploration',
@@ -41,8 +41,9 @@ CHECKS = {
             'member, a nested sharing provider; x decoration deltas on inventories, usage, traits, aggregates) x queries (10 base requests x '
             'every set of filter deviations: traits, in:, forbidden traits, member_of variants, in_tree, amounts, group_policy, same_subtree '
             'subsets, a resourceless group, root_required) under a joint deviation bound (quick: (0 state deltas, <=1 query deviation), (1, 0); '
-            'thorough: (0, <=2), (1, <=1), (2 on one provider, 0)) at the microversions where semantics change; the returned set of '
-            '(allocations, mappings) must equal the set computed by an oracle transcribed from the property statement over the raw rows.',
+            'thorough: (0, <=2), (1, <=1), (2 on one provider, 0)) at the microversions where semantics change (single deviations also at 1.28 and 1.24, below nested awareness); the returned set of '
+            '(allocations, mappings) must equal the set computed by an oracle transcribed from the property statement over the raw rows. Second part (E-conc): '
+            'every interleaving of one GET with one or two committed writers (re-parenting, first child creation + stocking, reshaper, traits, aggregates, usage); the body must be one the GET gives in a serial order.',
             'small scope (<= 7 providers, 3 trees, depth 3, 4 classes, 4 traits, 3 aggregates); oracle reading of unsuffixed in_tree follows provider-tree.rst',
             'DESIGN.md 5.C03'),
     'C11': ('E-seq', 'model_checking',
@@ -59,12 +60,12 @@ CHECKS = {
             'creations, idempotent re-creations, renames (1.6), deletions with valid, standard and invalid names (case, bare prefix, 255/256 '
             'characters, trailing newline), provider usage of a custom name, and the restart event; class ids are part of the state; the search '
             'reaches a fixpoint inside a stated id window; a reference model of the two tables decides status and post-state of every '
-            'transition and INV-std is evaluated after every restart.',
+            'transition and INV-std is evaluated after every restart. Second part (E-fault): every single database fault at every statement of the three start-up synchronisations and of the class / trait writes; a failed synchronisation must be repaired by the next one, in the same process and in a new one.',
             'custom class ids explored inside a window of K ids above 10000 (stated in evidence); pool of 3 custom names',
             'DESIGN.md 5.C19'),
     'C17': ('E-fault', 'fault_enumeration',
             'exhaustive fault placement: one database fault of every kind at every SQL statement index of every corpus request on the real service (thorough: pairs)',
-            'Corpus of 32 entries covering every write route in a state where it succeeds and, for the multi-step ones, in one where '
+            'Corpus of 35 entries covering every write route in a state where it succeeds and, for the multi-step ones, in one where '
             'it is rejected after its write transaction started, plus start-up synchronisation on an empty, partial and full database; '
             'for every statement index k and every fault kind (deadlock with the transaction left open, deadlock with the transaction '
             'rolled back by the DBMS, duplicate key with a racing creator whose row becomes visible after the transaction, connection, '
@@ -95,8 +96,8 @@ CHECKS = {
             'DESIGN.md 5.C15'),
     'C05': ('E-conc', 'model_checking',
             'stateless exploration of ALL transaction-level interleavings of concurrent requests on the real service, with state matching',
-            'Three start states x every unordered pair (with repetition) of 14 provider-writing operations, generation-'
-            'carrying ones with current and stale generations, x all interleavings at top-level-transaction granularity '
+            'Three start states x every unordered pair (with repetition) of 20 provider-writing operations (incl. the generation-less provider rename), generation-'
+            'carrying ones with current, stale and not-yet-reached generations, x all interleavings at top-level-transaction granularity '
             '(thorough: plus triples, preemption bound 3). Each request runs in its own greenlet on the real WSGI stack; '
             'every complete schedule class is judged: no 5xx, winners equivalent to a serial order, losers 409 '
             'placement.concurrent_update (or a serial answer), a successful generation-carrying write saw exactly its '
@@ -109,7 +110,7 @@ CHECKS = {
             'common consumer (generation null / current / stale, other provider, other project/type, clear, POST batch, '
             'reshaper, DELETE as a disturbing party, a 1.12 write) at 1.12/1.28/1.34/1.38 x all interleavings (thorough: all 66 '
             'pairs per state + triples with preemption bound 2); includes the creation race and the window between '
-            'ensure_consumer and the write transaction; same leaf oracle as C05 with the consumer-generation rule.',
+            'ensure_consumer and the write transaction, and the writer || clear || re-create triple (record removed and re-created under the same uuid); same leaf oracle as C05 with the consumer-generation rule and the rule that a successful writer still addresses the consumer record it read.',
             'each top-level transaction atomic and isolated; DELETE /allocations (no generation) is only judged through its victims',
             'DESIGN.md 5.C06'),
     'C07': ('E-conc', 'model_checking',
@@ -164,15 +165,15 @@ CHECKS = {
             'All histories up to depth 3 (quick) / 5 (thorough) from three start states over creation, '
             'replacement and deletion of providers, inventories (standard + custom class), custom class/trait, '
             'aggregates, allocations and reshaper; INV-ref is evaluated on the raw rows after every request and '
-            'every DELETE is compared with its refusal/cascade semantics.',
+            'every DELETE is compared with its refusal/cascade semantics. Second part (E-conc): all interleavings of 17 pairs "removal of an entity || request that starts using it" (incl. DELETE/clear of allocations against their replacement), judged by INV-ref on the final rows and serial equivalence.',
             'depth-bounded small scope; SQLite with foreign keys enforced',
             'DESIGN.md 5.C08'),
     'C10': ('E-seq', 'model_checking',
             'explicit-state BFS over request histories with a generation monitor on every transition',
-            'All histories up to depth 2 (quick) / 4 (thorough) from two populated start states over an alphabet '
+            'All histories up to depth 2 (quick) / 3 (thorough) from three start states (populated, in use, providers still at generation 0) over an alphabet '
             'containing every write path, their stale-generation variants and every read route; the concrete '
             'pre/post generation columns are compared on every transition and the generation echoed by every '
-            'read is compared with the stored one in every state.',
+            'read is compared with the stored one in every state. Second part (E-conc): all interleavings of 27 pairs (rename / re-parent, which carry no generation, against every bumping write; bumping writes against each other): no generation ever decreases between transaction begins, reported generations are reached, winners equal a serial order.',
             'depth-bounded small scope',
             'DESIGN.md 5.C10'),
     'C12': ('E-seq', 'model_checking',
@@ -190,7 +191,7 @@ CHECKS = {
             'space of labelled forests closes, the search reaches a fixpoint, each transition is a '
             'real HTTP request on a restored database and is compared with a reference forest '
             'semantics, INV-forest is evaluated on the rows and the API views are probed in every '
-            'state.',
+            'state. Second part (E-conc, foreign keys on and off): all interleavings of 12 pairs of hierarchy-changing requests, incl. two moves of the same provider.',
             'pool of 4/5 providers instead of 8; SQLite with foreign keys enforced stands in for '
             'the DBMS; reference forest semantics written from the API documentation',
             'DESIGN.md 5.C09'),
@@ -239,7 +240,7 @@ def main():
                                'granularity (greenlets, state matching)'},
             {'name': 'E-fault', 'path': 'vp/faults.py',
              'kind_free_text': 'database fault at every statement index'},
-            {'name': 'E-crash', 'path': 'vp/crash.py',
+            {'name': 'E-crash', 'path': 'vp/faults.py',
              'kind_free_text': 'process death at every statement/commit boundary'},
             {'name': 'E-enum', 'path': 'vp/enum.py',
              'kind_free_text': 'complete enumeration of finite input/configuration products'},
